@@ -11,6 +11,7 @@ From Coq Require Import List Bool ZArith Lia.
 Import ListNotations.
 From Rosed Require Import Base.Res Base.ListX Base.Str Base.Utf8 Gem.Segment Gem.GString Model.Tb Model.Manip Model.Table Model.Options Model.Editor Model.Ops
      Proofs.SeamP Proofs.C15P Proofs.C15Q.
+From Rosed Require Import Proofs.C15R.
 Open Scope Z_scope.
 
 Theorem C15_term_column : forall (C : Classifier) (K : ClassifierOk) term longest,
@@ -55,3 +56,8 @@ Print Assumptions C15_table.
 Theorem C15_longest : forall (C : Classifier) defs d, In d defs -> glen (decode (fst d)) <= fold_left lg_step defs (-1).
 Proof. intros C defs. exact (proj2 (longest_ge defs (-1))). Qed.
 Print Assumptions C15_longest.
+
+(* an empty definitions list produces no output: the Editor is returned as it is *)
+Theorem C15_empty_list : forall (C : Classifier) (U : Upper) pos width opts e, insert_definitions_table_opts pos [] width opts e = Ok e.
+Proof. intros C U. exact definitions_table_empty. Qed.
+Print Assumptions C15_empty_list.
